@@ -3,6 +3,8 @@ CONSTANTS
   Types = {"application/json", "text/plain", "application/xml"}
   NCallers = 2
   RecyclesWrappers = FALSE
+  SharedDefaults = FALSE
+  MaxOps = 4
   OnceIsNilCheck = TRUE
 INVARIANTS InvOneClient
 CHECK_DEADLOCK FALSE
